@@ -3,6 +3,8 @@
 # (the prompt contains only the property text and the worktree path; nothing from /verif)
 import json, os, subprocess, sys
 THEMES = {
+ "err": "ADDITIONAL CONSTRAINT FOR THIS ROUND: put the defect on an ERROR path or a DEGENERATE case that the property still covers: disconnecting an absent key or an already removed edge, a refused try_connect, removing an absent member, empty containers and empty graphs, single-node graphs, a search whose root has no edges / is an orphan / equals the target, an unreachable or non-existent target, deserialising empty or minimal documents, macros with zero nodes or zero edges, a node connected only to itself. The common, successful path must behave exactly like the original.",
+ "combo": "ADDITIONAL CONSTRAINT FOR THIS ROUND: the defect must manifest only for a specific COMBINATION of algorithm configuration and graph feature that looks too exotic to have been tested: e.g. priority-first max() mode + transpose() + search_cycle; postorder + transpose + search_edges; search() and search_path() of the same configuration disagreeing; a filter together with a target that is the root's direct neighbour through a parallel edge; for_each on a cycle search; pfs where two nodes have equal values. Every other configuration must behave exactly like the original.",
  "opt": "ADDITIONAL CONSTRAINT FOR THIS ROUND: disguise the defect as an IMPROVEMENT — a performance optimisation or clean-up a maintainer could plausibly merge (swap_remove instead of remove, caching a length or a degree, an early exit, avoiding a clone, hoisting a lookup out of a loop, merging two passes into one, replacing an index loop by an iterator adaptor, reusing a buffer, relaxing a lock to a shorter section, ...). On most inputs the optimised code must behave exactly like the original; only particular inputs expose that the optimisation is wrong.",
  "api": "ADDITIONAL CONSTRAINT FOR THIS ROUND: put the defect in a LESS-TRAVELLED part of the public API that the property still covers — for example accessors of returned paths (first/last node or edge, node/edge iterators, to_vec_*, len, indexing), Edge/Node comparison and reverse(), container views (roots, leaves, orphans, iter, to_vec, Index, remove), to_dot / to_dot_with_attr, the less common macro forms, the less common search configurations (transpose + filter + target together, max() priority, filter_map-style closures, search_nodes/search_edges of orderings), serialisation of unusual graphs — rather than in the main path of connect / bfs that any smoke test runs.",
  "deep": "ADDITIONAL CONSTRAINT FOR THIS ROUND: the defect must only manifest after a LONG or DEEP history: e.g. only after a node has been disconnected and reconnected, only on the second traversal from the same root, only when a node was removed from a container and re-inserted, only after an isolate followed by new connects, only when a deserialised graph is mutated and serialised again, only at depth >= 4 of a traversal or on paths of length >= 5, only when the same key is reused by a new node after the old one was dropped. A single operation on a fresh small graph must behave exactly like the original.",
